@@ -97,12 +97,12 @@ def run(prop, tier, seed, replay=None):
     rl = [l for l in open(path)]
     mixed = os.path.join(wd, "origins.ndjson")
     with open(mixed, "w") as f:
-        k = max(1, len(rl) // 40)
-        extra = (disc[:40] + tl[:40])
-        for i, l in enumerate(rl):
+        # head of the file (always used): disconnected accepted graphs first, then other table graphs, then routing lines
+        nhead = 3 if tier == "quick" else 12
+        for l in disc[:nhead] + tl[:max(1, nhead // 3)]:
             f.write(l)
-            if i % k == 0 and extra:
-                f.write(extra.pop(0))
+        for l in rl:
+            f.write(l)
     path = mixed
     trace = os.path.join(wd, "api.ndjson")
     s = core.mt("record-api", path, os.path.join(wd, "sum.json"), seed,
